@@ -157,18 +157,28 @@ def v1(repo: Repo) -> RuleResult:
             f.part = "constant"
             res.bad(f)
         rs = m.func("_ast.py", f"{cn}.reflect_subclass_by_value")
-        order = []
-        for n in ast.walk(rs.node):
-            if isinstance(n, ast.If):
-                order.append((n.lineno, src_of(n.test), src_of(n.body[0]) if n.body else ""))
-        order.sort()
-        kinds = [(tst, body) for _, tst, body in order]
-        res.inst(part="constant", action=rs.qual, chain=kinds)
-        want = [("value is True or value is False", f"return Boolean{cn}"), ("isinstance(value, int)", f"return Integer{cn}"), ("isinstance(value, str)", f"return String{cn}")]
-        if kinds[:1] != want[:1] or set(kinds) != set(want):
-            f = Finding("V1", rs.rel, rs.node.lineno, rs.qual, str(kinds), "the value-kind dispatch must test booleans first (bool is an int) and map bool/int/str to Boolean/Integer/String nodes", witness="const A = true  becomes an integer constant", tag=f"{rs.qual}:dispatch")
-            f.part = "constant"
-            res.bad(f)
+        from .flows import compiler_flow, value_kind_decider
+        from .normal import V as _V, show as _show
+
+        routed: Dict[str, List[str]] = {}
+        pr = [a.arg for a in rs.node.args.args]
+        for kind in ("true", "false", "int", "str"):
+            try:
+                fl_ = compiler_flow(repo, cn, "_ast.py", module_funcs=True, decide=value_kind_decider(kind))
+                routed[kind] = sorted({_show(p_.ret) for p_ in fl_.run(rs.node, {pr[0]: _V("cls"), pr[1]: _V("value")}) if p_.done == "return" and p_.ret is not None})
+            except Inconclusive as e:
+                routed[kind] = [f"<{e}>"]
+        res.inst(part="constant", action=rs.qual, routed=routed)
+        want_r = {"true": [f"Boolean{cn}"], "false": [f"Boolean{cn}"], "int": [f"Integer{cn}"], "str": [f"String{cn}"]}
+        if routed != want_r:
+            wrong = {k_: v_ for k_, v_ in routed.items() if v_ != want_r[k_]}
+            known = {f"Boolean{cn}", f"Integer{cn}", f"String{cn}", "None"}
+            if all(len(v_) == 1 and v_[0] in known for v_ in wrong.values()):
+                f = Finding("V1", rs.rel, rs.node.lineno, rs.qual, str(routed), f"the value-kind dispatch must test booleans first (bool is an int) and map bool/int/str to Boolean/Integer/String nodes (got {wrong})", witness="const A = true  becomes an integer constant", tag=f"{rs.qual}:dispatch")
+                f.part = "constant"
+                res.bad(f)
+            else:
+                res.unsure(f"V1: {rs.qual}: routing {wrong} not recognised")
     return res
 
 
